@@ -24,6 +24,8 @@ def check_case(run, model, case, pid, corpus_tag=None):
     data = case["data"]
     impl = pelgen.impl_decode(data, case["plugins"])
     mo = pelgen.model_outcome(case["model"])
+    if mo[0] == "ok":
+        run.count("doc-wf:%s" % pelgen.LAST["wf"])
     replay = dict(kind="S", gen="gen_pel", choices=case["choices"], maxsecs=case["maxsecs"], maxpayload=case["maxpayload"],
                   plugins=case["plugins"], input_hex=case["hex"] if len(case["hex"]) < 20000 else case["hex"][:20000] + "...")
     nsec = len(case["ids"])
